@@ -102,6 +102,15 @@ def rename_slides(data: bytes, mode: str, seed: int = 0) -> bytes:
             new = [nums[0] + 2]
     elif mode == "gaps":
         new = [2 * k + 3 for k in nums]
+    elif mode == "lastfits":
+        # non-contiguous and out of order, but the LAST slide is already called slide<count>
+        n = len(nums)
+        new = [1] + [n + 2 * i for i in range(1, n - 1)] + [n] if n >= 3 else ([2 * n + 1, n] if n == 2 else [nums[0] + 4])
+        if n >= 3:
+            new[1:-1] = list(reversed(new[1:-1]))
+    elif mode == "firstbig":
+        n = len(nums)
+        new = [n + 1] + list(range(1, n - 1)) + [n] if n >= 3 else [k + 3 for k in nums]
     else:
         new = [k + r.choice([0, 0, 10, 100]) for k in nums]
         r.shuffle(new)
